@@ -45,7 +45,32 @@ StarEnds(p, s, acc, new, cf) ==
   IF nx = {} THEN acc ELSE StarEnds(p, s, acc \cup nx, nx, cf)
 
 \* occurrences <<start, end>> with a non-empty match, anywhere in the row
-Occ(p, s, cf) == {<<i, j>> \in (1..(Len(s) + 1)) \X (1..(Len(s) + 1)) : j \in Ends(p, s, i, cf) /\ j > i}
+Occ(p, s, cf) == UNION {{<<i, j>> : j \in {e \in Ends(p, s, i, cf) : e > i}} : i \in 1..(Len(s) + 1)}
+(* The same set, computed without trying the places where no match can begin: CanStart is a
+   necessary condition for a non-empty match of p to begin with character c (the characters its
+   first consuming leaves accept).  MC_TtxMatchFast checks OccF = Occ on a pattern stratum. *)
+RECURSIVE Nullable(_), CanStart(_, _, _), CanStartSeq(_, _, _, _)
+Nullable(p) ==
+  CASE p.k \in {"chr", "any", "cls", "ncls"} -> FALSE
+    [] p.k \in {"bol", "eol", "star", "opt"} -> TRUE
+    [] p.k = "cat"  -> \A n \in 1..Len(p.a) : Nullable(p.a[n])
+    [] p.k = "alt"  -> \E n \in 1..Len(p.a) : Nullable(p.a[n])
+    [] p.k = "plus" -> Nullable(p.p)
+CanStart(p, c, cf) ==
+  CASE p.k = "chr"  -> Fold(cf, c) = Fold(cf, p.c)
+    [] p.k = "any"  -> TRUE
+    [] p.k = "cls"  -> \E d \in p.s : Fold(cf, d) = Fold(cf, c)
+    [] p.k = "ncls" -> ~(\E d \in p.s : Fold(cf, d) = Fold(cf, c))
+    [] p.k \in {"bol", "eol"} -> FALSE
+    [] p.k = "cat"  -> CanStartSeq(p.a, 1, c, cf)
+    [] p.k = "alt"  -> \E n \in 1..Len(p.a) : CanStart(p.a[n], c, cf)
+    [] OTHER -> CanStart(p.p, c, cf)
+CanStartSeq(a, n, c, cf) ==
+  IF n > Len(a) THEN FALSE
+  ELSE CanStart(a[n], c, cf) \/ (Nullable(a[n]) /\ CanStartSeq(a, n + 1, c, cf))
+OccF(p, s, cf) ==
+  LET ok == {c \in {s[i] : i \in 1..Len(s)} : CanStart(p, c, cf)}
+  IN UNION {{<<i, j>> : j \in {e \in Ends(p, s, i, cf) : e > i}} : i \in {x \in 1..Len(s) : s[x] \in ok}}
 Found(p, s, cf) == \E i \in 1..(Len(s) + 1) : \E j \in Ends(p, s, i, cf) : j > i
 
 \* literal pattern = concatenation of its characters
